@@ -340,7 +340,7 @@ func (g *gen) oversizeTreeCase(asLeaf bool) {
 }
 
 func (prop) Gen(r *core.Rand, tier string) []core.Case {
-	nd, nbig, np, nmulti := 40, 2, 16, 3
+	nd, nbig, np, nmulti := 30, 2, 12, 3
 	if tier == "thorough" {
 		nd, nbig, np, nmulti = 600, 20, 200, 30
 	}
@@ -371,6 +371,12 @@ func (prop) Gen(r *core.Rand, tier string) []core.Case {
 		g.op("deliver 1 1")
 		g.op("forward 1 1")
 		g.op("mutd 40 1")
+		g.op("deliver 1 1")
+		g.op("mutd 40 1")
+		g.op("mutd 96 4") // recovery byte with the compressed-key flag (C05 fix aca4d22)
+		g.op("deliver 1 1")
+		g.op("mutd 96 4")
+		g.op("mutd 96 60")
 		g.op("deliver 1 1")
 		g.op("pyr #nope")
 		g.op("def a s3+h:666f6f")
